@@ -10,6 +10,7 @@ import (
 	"os/exec"
 	"path/filepath"
 	"regexp"
+	"sort"
 	"strconv"
 	"strings"
 	"time"
@@ -107,6 +108,9 @@ func runTLC(dir, module, cfg string, workers int, timeout time.Duration, extra .
 			res.Printed = append(res.Printed, line)
 		}
 	}
+	// TLC's workers print in no fixed order; everything downstream (seeded thinning, sampling) must
+	// see the same sequence on every run
+	sort.Strings(res.Printed)
 	if err != nil && !res.Violation {
 		return res, inconclusive("TLC failed on %s/%s: %v\n%s", module, cfg, err, tail(out, 3000))
 	}
